@@ -34,3 +34,119 @@ def ticket_permits(ticket, psid):
 
 def ticket_valid_at(ticket, generation_time):
     return uf('ticket_valid_at', 'bool', generation_time)
+
+
+# ---- C09: permissions of a certificate dictionary, written from IEEE 1609.2 / TS 103 097 rather than from the code ----
+
+def app_psids(c):
+    """PSIDs of the appPermissions of certificate dictionary c"""
+    tbs = c['toBeSigned']
+    if 'appPermissions' not in tbs:
+        return []
+    return [e['psid'] for e in tbs['appPermissions']]
+
+
+def issue_groups(c):
+    tbs = c['toBeSigned']
+    if 'certIssuePermissions' not in tbs:
+        return []
+    return tbs['certIssuePermissions']
+
+
+def issue_psids(c):
+    """PSIDs the certificate may issue for (or itself asks to be able to issue for) through explicit groups"""
+    out = []
+    for g in issue_groups(c):
+        if g['subjectPermissions'][0] == 'explicit':
+            out = out + [e['psid'] for e in g['subjectPermissions'][1]]
+    return out
+
+
+def issues_all(c):
+    return any(g['subjectPermissions'][0] == 'all' for g in issue_groups(c))
+
+
+def needed_psids(c):
+    return app_psids(c) + issue_psids(c)
+
+
+def explicitly_contained(c, i):
+    """every PSID certificate c is authorised for, or asks to issue for, is one its issuer i may issue for"""
+    return all(p in issue_psids(i) for p in needed_psids(c))
+
+
+def contained(c, i):
+    """permissions of certificate dictionary c are contained in the issuing permissions of issuer dictionary i"""
+    return issues_all(i) or (not issues_all(c) and explicitly_contained(c, i))
+
+
+def chain_length_allows(c):
+    """the remaining chain length of every issuing-permission group of issuer dictionary c allows one more certificate"""
+    return all(g['minChainLength'] >= 1 for g in issue_groups(c))
+
+
+def tbs_cert_encoding():
+    """(toBeSigned dictionary, its encoding) of the single ToBeSignedCertificate encoding made by the call"""
+    return ghost('tbs_cert_encoded')[0]
+
+
+# ---- C09: the certificate library seen as three maps digest -> certificate object ----
+
+def digest_of(cert):
+    return cert.as_hashedid8()
+
+
+def names_trusted_issuer(lib, cert):
+    """the certificate names (by digest) an issuer that is in the trusted roots or the trusted authorization authorities"""
+    return cert.certificate['issuer'][0] == 'sha256AndDigest' and (
+        map_has(lib.known_root_certificates, cert.certificate['issuer'][1])
+        or map_has(lib.known_authorization_authorities, cert.certificate['issuer'][1]))
+
+
+def changed_only_by_admitting(m, cert):
+    """two-state, at the tracked ARBITRARY key of map m: the entry is as before, or the key is cert's digest and the entry
+    now holds cert"""
+    return unchanged(m) or (old(map_key0(m)) == digest_of(cert) and map_has(m, old(map_key0(m))) and map_get(m, old(map_key0(m))) is cert)
+
+
+def unchanged(m):
+    return map_has(m, old(map_key0(m))) == old(map_has(m, map_key0(m))) and implies(old(map_has(m, map_key0(m))), map_get(m, old(map_key0(m))) is old(map_get(m, map_key0(m))))
+
+
+def stored_issuer(lib, c):
+    """c's issuer attribute is the certificate stored (root or authorization authority) under the digest c names"""
+    d = c.certificate['issuer'][1]
+    return c.issuer is not None and c.certificate['issuer'][0] == 'sha256AndDigest' and (
+        (map_has(lib.known_root_certificates, d) and c.issuer is map_get(lib.known_root_certificates, d))
+        or (map_has(lib.known_authorization_authorities, d) and c.issuer is map_get(lib.known_authorization_authorities, d)))
+
+
+def stored_root_issuer(lib, c):
+    d = c.certificate['issuer'][1]
+    return c.issuer is not None and map_has(lib.known_root_certificates, d) and c.issuer is map_get(lib.known_root_certificates, d)
+
+
+def chain_verified(lib, c, backend):
+    """c verifies, and its issuer attribute is a stored trusted certificate or an authorization authority that itself
+    verifies under a stored root"""
+    return c.verify(backend) and (stored_issuer(lib, c) or (c.issuer is not None and c.issuer.verify(backend) and stored_root_issuer(lib, c.issuer)))
+
+
+def keyed_by_own_digest(m):
+    return implies(map_has(m, map_key0(m)), map_key0(m) == digest_of(map_get(m, map_key0(m))))
+
+
+def store_wf(lib):
+    """representation invariant of the library: every stored certificate is stored under its own digest"""
+    return keyed_by_own_digest(lib.known_authorization_tickets) and keyed_by_own_digest(lib.known_authorization_authorities) and keyed_by_own_digest(lib.known_root_certificates)
+
+
+# ---- C05: the message handed to the OER encoder by the sign service ----
+
+def signed_message():
+    """the EtsiTs103097Data-Signed dictionary given to the single encode call"""
+    return ghost('secured')[0][0]
+
+
+def header_keys(header_info):
+    return sorted(header_info.keys())
